@@ -84,9 +84,9 @@ int ep_setup(Endpoint *ep, int side, Conn *c, const Plan *p, const CredSet *cs, 
 	if (tls_ctx_set_cipher_suites(&ep->ctx, suite, 1) != 1) return -1;
 
 	if (side == 0) {
-		if (!(p->cred_mode == 2 && p->proto == P_TLCP)) set_trust(&ep->ctx, p, cs);
+		if (!((p->cred_mode & 2) && p->proto == P_TLCP)) set_trust(&ep->ctx, p, cs);
 		ep->ctx.verify_depth = TLS_DEFAULT_VERIFY_DEPTH;
-		if (p->mutual) {
+		if (p->mutual || (p->cred_mode & 4)) {
 			ep->ctx.certs = dupmem(cs->cli_chain, cs->cli_chain_len);
 			ep->ctx.certslen = cs->cli_chain_len;
 			ep->ctx.signkey = cs->cli_sign.key;
